@@ -188,6 +188,9 @@ func init() {
 							}
 						} else if org.Kind != OInput || org.Label.Type != a.Param.Type {
 							res.violate("C03", "typed-not-input", fmt.Sprintf("type-only parameter %v received #%d (%s, label %v), not a supplied value of exactly its type", a.Param, a.ID, originStr(org), org.Label), det)
+						} else if org.Call == 70 {
+							// the value supplied to the EARLIER wrapper call (call id 70), not this call's exact input
+							res.violate("C03", "typed-not-this-calls-input", fmt.Sprintf("type-only parameter %v received #%d, the value an earlier call through a wrapper over the function's own sets was given, instead of this call's exact input", a.Param, a.ID), det)
 						}
 						res.obs("target_arguments_checked", 1)
 					}
